@@ -38,7 +38,7 @@ BUDGET_S = {'quick': 240, 'thorough': 2400}
 
 FEATS = ('hier', 'abstract', 'unreg', 'extra', 'enum', 'strlike', 'any',
          'untyped', 'date', 'path', 'buf', 'abstract_containers', 'defaults',
-         'multi', 'raises', 'hooks', 'permissive', 'opt_any', 'underscore')
+         'multi', 'raises', 'hooks', 'permissive', 'opt_any', 'underscore', 'recursive')
 
 TOKENS = ['a', 'b', 'x', '1', '1.5', 'true', '~', 'null', ':', ': ', '- ', '-',
           '? ', ',', '[', ']', '{', '}', '&a ', '*a', '&b ', '*b', '!A ', '!B ',
@@ -55,13 +55,78 @@ def soup():
     return st.lists(st.sampled_from(TOKENS), min_size=1, max_size=14).map(''.join)
 
 
+def nested_same_class(draw, spec):
+    """A recursive model: an object that contains (through a list/dict/Optional
+    attribute typed as one of its ancestors) another object of its own class,
+    with an unknown key or a wrong value on the *outer* object only."""
+    import copy
+    by = gen.classes_by_name(spec)
+    cands = []
+    for c in spec['classes']:
+        if c.get('kind', 'obj') != 'obj' or not c.get('reg', True) or c.get('abstract'):
+            continue
+        anc = set()
+        stack = list(c.get('bases', []))
+        while stack:
+            b = stack.pop()
+            anc.add(b)
+            stack += by[b].get('bases', [])
+        for p in c.get('params', []):
+            t = p.get('type')
+            inner = t[1] if isinstance(t, list) and t[0] == 'opt' else t
+            if isinstance(inner, list) and inner[0] in ('list', 'dict', 'opt', 'ref'):
+                ref = inner[-1] if inner[0] != 'ref' else inner
+                if isinstance(ref, list) and ref[0] == 'ref' and ref[1] in anc | {c['name']}:
+                    cands.append((c, p, inner))
+    if not cands or draw(st.booleans()):
+        # the textbook recursive model
+        part = {'name': 'Part', 'kind': 'obj', 'bases': [], 'params': [{'name': 'name', 'type': 'str'}]}
+        asm = {'name': 'Assembly', 'kind': 'obj', 'bases': ['Part'], 'params': [
+            {'name': 'name', 'type': 'str'},
+            {'name': 'parts', 'type': draw(st.sampled_from(
+                [['list', ['ref', 'Part']], ['dict', 'str', ['ref', 'Part']]]))}]}
+        spec = {'classes': [part, asm], 'order': ['Part', 'Assembly'], 'doc_type': ['ref', 'Part']}
+        cands = [(asm, asm['params'][1], asm['params'][1]['type'])]
+    c, p, inner = draw(st.sampled_from(cands))
+    spec2 = dict(spec, doc_type=['ref', c['name']])
+
+    def obj():
+        for _ in range(6):
+            v = draw(gen.vspec_for(spec2, ['ref', c['name']], hard=False, omit_defaults=False))
+            if v is not None and v[0] == 'obj' and v[1] == c['name']:
+                return v
+        return None
+    outer, nested = obj(), obj()
+    if outer is None or nested is None:
+        return None
+    outer = copy.deepcopy(outer)
+    wrapped = {'list': ['list', [nested]], 'dict': ['dict', [[['str', 'k'], nested]]]}.get(inner[0], nested)
+    outer[2] = [[n, (wrapped if n == p['name'] else x)] for n, x in outer[2]]
+    if p['name'] not in [n for n, _ in outer[2]]:
+        outer[2].append([p['name'], wrapped])
+    t = gen.project(outer, spec2)
+    how = draw(st.sampled_from(['extra', 'extra', 'wrong']))
+    if how == 'extra':
+        t[1].insert(draw(st.integers(0, len(t[1]))), [T.S(draw(st.sampled_from(['zz', 'note', 'Key']))), T.S('1')])
+    else:
+        i = draw(st.integers(0, len(t[1]) - 1))
+        t[1][i][1] = T.S('wrong value')
+    return ('MODEL', spec2, T.render_flow(t))
+
+
 @st.composite
 def special_text(draw, spec):
     """Mutated valid documents with features the tree renderer cannot express."""
     t, _ = draw(gen.doc_for(spec, tags=draw(st.booleans()), hard=False))
     text = T.render_flow(t)
     k = draw(st.sampled_from(['dupkey', 'complexkey', 'merge', 'illformed',
-                              'alias', 'cycle', 'nonstrkey', 'trunc', 'insert']))
+                              'alias', 'cycle', 'nonstrkey', 'trunc', 'insert',
+                              'nested_same_class', 'nested_same_class']))
+    if k == 'nested_same_class':
+        r = nested_same_class(draw, spec)
+        if r is not None:
+            return r
+        k = 'insert'
     if k == 'dupkey' and t[0] == 'm' and t[1]:
         kk = T.render_flow(t[1][0][0])
         text = '{' + kk + ': ' + T.render_flow(t[1][0][1]) + ', ' + text[1:]
@@ -126,6 +191,9 @@ def cases(draw):
     elif c <= 6:
         text = draw(special_text(spec))
         src = 'special'
+        if isinstance(text, tuple):     # a special text that comes with its own document type
+            spec, text = text[1], text[2]
+            src = 'special_nested_same_class'
     elif c <= 8:
         text = draw(soup())
         src = 'soup'
